@@ -141,6 +141,25 @@ def instTemplate (tpl : List TTP) : List (Row n) → Nat → List Triple
   | [], _ => []
   | μ :: rest, i => tpl.filterMap (instTriple μ i) ++ instTemplate tpl rest (i + 1)
 
+/-! The same with the minted nodes named by an arbitrary function (one naming `Nat → Term` of the template labels
+    per solution): `instTemplate` is the instance with the canonical names `Term.fresh i`.  Two instantiations of the
+    same solutions under two injective namings are the same graph up to a renaming of the minted nodes. -/
+
+def instPosN (name : Nat → Term) (μ : Row n) : TPos → Option Term
+  | .var v => μ.get v
+  | .const t => some t
+  | .blank lab => some (name lab)
+
+def instTripleN (name : Nat → Term) (μ : Row n) (tp : TTP) : Option Triple :=
+  match instPosN name μ tp.1, instPosN name μ tp.2.1, instPosN name μ tp.2.2 with
+  | some s, some p, some o => if isSubject s && isPredicate p then some (s, p, o) else none
+  | _, _, _ => none
+
+/-- the template instantiated over solutions that each come with the naming of their minted nodes -/
+def instNamed (tpl : List TTP) : List (Row n × (Nat → Term)) → List Triple
+  | [] => []
+  | (μ, ν) :: rest => tpl.filterMap (instTripleN ν μ) ++ instNamed tpl rest
+
 def evalQuery (D : Dataset) : Query → Result n
   | .select pv p => .rows pv ((eval D D.dflt Row.empty p).map (·.restrict pv))
   | .ask _ p => .bool (!(eval D D.dflt (Row.empty : Row n) p).isEmpty)
